@@ -126,6 +126,7 @@ impl InputBuffer {
                 forall|k: int| 0 <= k < __ci@.len() ==> (#[trigger] __ci@[k]).1 == md[k] && __ci@[k].0 == char_off(md, k) && __ci@[k].0 < nb
                     && is_char_boundary(sbytes(self.modified), __ci@[k].0 as int),
                 forall|k: int, l: int| 0 <= k < l < __ci@.len() ==> __ci@[k].0 < __ci@[l].0,
+                forall|x: int| 0 <= x < nb && is_char_boundary(sbytes(self.modified), x) ==> exists|k: int| 0 <= k < __ci@.len() && #[trigger] __ci@[k].0 == x,
                 __ci@.len() > 0 ==> __ci@[0].0 == 0,
                 self.mod_chars@.len() == __it, self.mod_cat@.len() == __it, self.mod_c2b@.len() == __it, self.mod_bow@.len() == nb,
                 forall|k: int| 0 <= k < __it ==> (#[trigger] self.mod_chars@[k]) == md[k],
@@ -178,6 +179,12 @@ impl InputBuffer {
             let c2b = self.mod_c2b@; let b2c = self.mod_b2c@;
             assert forall|k: int, l: int| 0 <= k < l <= nch implies c2b[k] < c2b[l] by { if l < nch { assert(__ci@[k].0 < __ci@[l].0); } }
             assert forall|x: int| 0 <= x < nb implies (#[trigger] b2c[x]) < nch && c2b[b2c[x] as int] <= x < c2b[b2c[x] + 1] by { }
+            assert forall|x: int| 0 <= x < nb && is_char_boundary(sbytes(self.modified), x) implies c2b[#[trigger] b2c[x] as int] == x by {
+                let k = choose|k: int| 0 <= k < __ci@.len() && #[trigger] __ci@[k].0 == x;
+                let j = b2c[x] as int;
+                assert(c2b[k] == x);
+                if k < j { assert(c2b[k] < c2b[j]); } else if k > j { assert(c2b[j + 1] <= c2b[k]) by { if j + 1 < k { assert(c2b[j + 1] < c2b[k]); } } }
+            }
         }
 //@end
 
